@@ -75,7 +75,7 @@ pub fn run_target(target: &str, data: &[u8]) -> Result<(), Fail> {
             let b: u8 = u.arbitrary().unwrap_or(0);
             let tamper = match kind % 14 {
                 12 => c04::Tamper::AltEncoding(b % 12),
-                11 => c04::Tamper::Multi(b, multi_from(a as u32 * 65537 + b as u32, b)),
+                11 => c04::Tamper::Multi(b, multi_from((a as u32).wrapping_mul(65537).wrapping_add(b as u32), b)),
                 0 => c04::Tamper::FlipBit(a % 512),
                 1 => c04::Tamper::SetComponent(b % 2, (a % 8) as u8),
                 2 => c04::Tamper::SEqualsNMinusR,
